@@ -76,3 +76,101 @@ Example rc5x_frame_parses :
   | _ => False
   end.
 Proof. vm_compute. split; reflexivity. Qed.
+
+(* ---- what the loop writes into the normalised code: nominal durations only - the two halves of the first table entry and the
+   declared middle durations, never a received duration *)
+Definition mid_vals (x : mid) : list Z := match x with MTuple a b => [a; b] | MInt z => [z] end.
+Definition nominalT (m s : Z) (mids : list mid) (x : Z) : Prop := x = m \/ x = s \/ In x (flat_map mid_vals mids).
+Definition extendsT (m s : Z) (mids : list mid) (old new : list Z) : Prop :=
+  exists added, new = added ++ old /\ Forall (nominalT m s mids) added.
+
+Lemma extendsT_refl m s mids l : extendsT m s mids l l.
+Proof. exists []. split; [reflexivity|constructor]. Qed.
+Lemma extendsT_trans m s mids a b c : extendsT m s mids a b -> extendsT m s mids b c -> extendsT m s mids a c.
+Proof.
+  intros [x [-> Hx]] [y [-> Hy]]. exists (y ++ x). split; [rewrite app_assoc; reflexivity|apply Forall_app; split; assumption].
+Qed.
+Lemma extendsT_list m s mids l added : Forall (nominalT m s mids) added -> extendsT m s mids l (added ++ l).
+Proof. intros H. exists added. split; [reflexivity|exact H]. Qed.
+
+Lemma remove_mid_incl x l : incl (remove_mid x l) l.
+Proof.
+  induction l as [|y r IH]; [intros z Hz; exact Hz|]. cbn [remove_mid]. destruct (mid_eqb y x).
+  - intros z Hz. right. exact Hz.
+  - intros z [->|Hz]; [left; reflexivity|right; apply IH; exact Hz].
+Qed.
+
+Ltac nomT := first [ left; reflexivity | right; left; reflexivity | right; right; assumption ].
+Ltac extT :=
+  match goal with
+  | |- extendsT _ _ _ ?old (?a :: ?old) => exists [a]
+  | |- extendsT _ _ _ ?old (?a :: ?b :: ?old) => exists [a; b]
+  | |- extendsT _ _ _ ?old (?a :: ?b :: ?c :: ?old) => exists [a; b; c]
+  end; split; [reflexivity|repeat (constructor; [nomT|]); constructor].
+
+Lemma tuple_step_clean tol m s tm ts b next st st' mids :
+  In tm (flat_map mid_vals mids) -> In ts (flat_map mid_vals mids) ->
+  tuple_step tol m s tm ts b next st = MtHit st' ->
+  extendsT m s mids (mt_clean st) (mt_clean st') /\ incl (mt_mids st') (mt_mids st).
+Proof.
+  intros Htm Hts. unfold tuple_step. intros H.
+  repeat match type of H with
+         | (if ?c then _ else _) = _ => destruct c
+         | match ?x with _ => _ end = _ => destruct x
+         | MtHit _ = MtHit _ => injection H as <-; cbn [mt_clean mt_mids]
+         | MtMiss = MtHit _ => discriminate H
+         | MtIdx = MtHit _ => discriminate H
+         | MtDrop = MtHit _ => discriminate H
+         end;
+  (split; [ extT | first [ apply incl_refl | apply remove_mid_incl ] ]).
+Qed.
+
+Lemma int_step_clean tol m s z b st st' mids :
+  In z (flat_map mid_vals mids) ->
+  int_step tol m s z b st = MtHit st' ->
+  extendsT m s mids (mt_clean st) (mt_clean st') /\ incl (mt_mids st') (mt_mids st).
+Proof.
+  intros Hz. unfold int_step. intros H.
+  repeat match type of H with
+         | (if ?c then _ else _) = _ => destruct c
+         | MtHit _ = MtHit _ => injection H as <-; cbn [mt_clean mt_mids]
+         | MtMiss = MtHit _ => discriminate H
+         end;
+  (split; [ extT | apply remove_mid_incl ]).
+Qed.
+
+Lemma mids_loop_clean tol m s b next st mids : forall iter st', incl iter mids ->
+  mids_loop tol m s iter b next st = MtHit st' ->
+  extendsT m s mids (mt_clean st) (mt_clean st') /\ incl (mt_mids st') (mt_mids st).
+Proof.
+  induction iter as [|x r IH]; intros st' Hi H; cbn [mids_loop] in H; [discriminate|].
+  assert (incl (mid_vals x) (flat_map mid_vals mids)) as Hx.
+  { intros v Hv. apply in_flat_map. exists x. split; [apply Hi; left; reflexivity|exact Hv]. }
+  destruct x as [tm ts|z].
+  - destruct (tuple_step tol m s tm ts b next st) eqn:E; try discriminate.
+    + injection H as <-. eapply tuple_step_clean; [apply Hx; left; reflexivity|apply Hx; right; left; reflexivity|exact E].
+    + apply IH; [intros v Hv; apply Hi; right; exact Hv|exact H].
+  - destruct (int_step tol m s z b st) eqn:E; try discriminate.
+    + injection H as <-. eapply int_step_clean; [apply Hx; left; reflexivity|exact E].
+    + apply IH; [intros v Hv; apply Hi; right; exact Hv|exact H].
+Qed.
+
+Theorem man_loopT_nominal tol m s mids : forall ds st st', incl (mt_mids st) mids ->
+  man_loopT tol m s st ds = Ok st' -> extendsT m s mids (mt_clean st) (mt_clean st').
+Proof.
+  induction ds as [|b r IH]; intros st st' Hm H; cbn [man_loopT] in H.
+  - injection H as <-. apply extendsT_refl.
+  - assert (forall l, Forall (nominalT m s mids) l -> man_loopT tol m s (mt_push st l) r = Ok st' ->
+                      extendsT m s mids (mt_clean st) (mt_clean st')) as Hpush.
+    { intros l Hl Hr. eapply extendsT_trans; [apply (extendsT_list m s mids (mt_clean st) l Hl)|].
+      apply (IH (mt_push st l) st'); [exact Hm|exact Hr]. }
+    destruct (matchb tol b m); [apply (Hpush [m]); [repeat constructor; nomT|exact H]|].
+    destruct (matchb tol b s); [apply (Hpush [s]); [repeat constructor; nomT|exact H]|].
+    destruct (mids_loop tol m s (mt_mids st) b (hd_error r) st) as [st1| | |] eqn:E.
+    + destruct (mids_loop_clean tol m s b (hd_error r) st mids (mt_mids st) st1 Hm E) as [H1 H2].
+      eapply extendsT_trans; [exact H1|]. apply IH; [intros v Hv; apply Hm; apply H2; exact Hv|exact H].
+    + apply IH; [exact Hm|exact H].
+    + destruct (matchb tol b (m * 2)); [apply (Hpush [m; m]); [repeat constructor; nomT|exact H]|].
+      destruct (matchb tol b (s * 2)); [apply (Hpush [s; s]); [repeat constructor; nomT|exact H]|discriminate].
+    + discriminate.
+Qed.
